@@ -1,6 +1,7 @@
 mod c01;
 mod c04;
 mod cjs;
+mod csem;
 mod compile;
 mod den;
 mod jsval;
@@ -8,6 +9,7 @@ mod member;
 mod proc;
 mod render;
 mod runner;
+mod sem;
 mod src;
 
 use runner::{Check, Tier};
@@ -18,6 +20,7 @@ fn check_by_id(id: &str) -> Option<Arc<dyn Check>> {
         "C01" => Arc::new(c01::C01),
         "C03" => Arc::new(cjs::C03),
         "C04" => Arc::new(c04::C04),
+        "C05" => Arc::new(csem::C05),
         "C11" => Arc::new(cjs::C11),
         "C12" => Arc::new(cjs::C12),
         _ => return None,
@@ -89,6 +92,11 @@ fn main() {
             }
         }
         "worker-compile" => compile::worker_main(),
+        "sem" => {
+            let text = std::fs::read_to_string(&args[2]).expect("read");
+            let v: serde_json::Value = serde_json::from_str(&text).expect("json");
+            println!("{}", serde_json::to_string_pretty(&sem::handle_sem(&v)).unwrap());
+        }
         "compile" => {
             let text = std::fs::read_to_string(&args[2]).expect("read");
             let out = compile::compile(&compile::Project::single(&text));
